@@ -1314,3 +1314,93 @@ pub fn host_filter_gate() -> Value {
 		json!({"probe":"host_filter_gate","disagrees":false,"inputs_tried":tried})
 	})
 }
+
+// ------------------------------------------------------------------------------------------
+/// C06 / C04: subscription bookkeeping through the real RpcModule (no transport): clones of a sink, unsubscribe answers,
+/// sends after close.
+pub fn subscription_bookkeeping() -> Value {
+	use jsonrpsee_core::server::{SubscriptionMessage, SubscriptionSink};
+	use jsonrpsee_types::SubscriptionId;
+	rt().block_on(async {
+		fn raw(s: &str) -> SubscriptionMessage { SubscriptionMessage::from(serde_json::value::RawValue::from_string(s.to_string()).unwrap()) }
+		let fail = |input: &str, obs: String, exp: &str| json!({"probe":"subscription_bookkeeping","disagrees":true,"input":input,"observed":obs,"expected":exp});
+		let (report_tx, mut report_rx) = tokio::sync::mpsc::unbounded_channel::<String>();
+		let mut module = RpcModule::new(report_tx);
+		module
+			.register_subscription("sub", "notif", "unsub", |_, pending, tx, _| async move {
+				let sink: SubscriptionSink = pending.accept().await.unwrap();
+				// the handler clones its sink and drops ONE clone: it still holds a sink
+				let clone = sink.clone();
+				drop(clone);
+				tokio::time::sleep(std::time::Duration::from_millis(30)).await;
+				let closed_after_clone_drop = sink.is_closed();
+				let r = sink.send(raw("\"after-clone-drop\"")).await;
+				let _ = tx.send(format!("closed_after_clone_drop={closed_after_clone_drop} send_ok={}", r.is_ok()));
+				// wait for the unsubscribe, then try every send flavour
+				sink.closed().await;
+				let mut sink = sink;
+				let s1 = sink.send(raw("1")).await.is_ok();
+				let s2 = sink.send_timeout(raw("2"), std::time::Duration::from_millis(50)).await.is_ok();
+				let s3 = sink.try_send(raw("3")).is_ok();
+				let _ = tx.send(format!("after_close is_closed={} send={s1} send_timeout={s2} try_send={s3}", sink.is_closed()));
+			})
+			.unwrap();
+		let mut sub = module.subscribe_unbounded("sub", jsonrpsee_core::EmptyServerParams::new()).await.unwrap();
+		let sub_id = sub.subscription_id().clone();
+		let first = tokio::time::timeout(std::time::Duration::from_secs(2), report_rx.recv()).await.ok().flatten().unwrap_or_default();
+		if first != "closed_after_clone_drop=false send_ok=true" {
+			return fail("handler accepts, clones its sink, drops the clone, then sends with the sink it still holds", first, "the subscription is still active: is_closed() == false and the send succeeds");
+		}
+		let got = tokio::time::timeout(std::time::Duration::from_secs(2), sub.next::<String>()).await;
+		if !matches!(&got, Ok(Some(Ok((v, _)))) if v == "after-clone-drop") {
+			return fail("notification sent after a clone of the sink was dropped", format!("{:?}", got.map(|o| o.map(|r| r.map(|x| x.0).map_err(|e| e.to_string())))), "delivered");
+		}
+		// unsubscribe: another id -> false; own id -> true; again -> false
+		let other: bool = module.call("unsub", [SubscriptionId::Num(999_999)]).await.unwrap();
+		let own: bool = module.call("unsub", [sub_id.clone()]).await.unwrap();
+		let again: bool = module.call("unsub", [sub_id.clone()]).await.unwrap();
+		if (other, own, again) != (false, true, false) {
+			return fail("unsubscribe(unknown id), unsubscribe(own id), unsubscribe(own id) again", format!("{:?}", (other, own, again)), "(false, true, false)");
+		}
+		let second = tokio::time::timeout(std::time::Duration::from_secs(2), report_rx.recv()).await.ok().flatten().unwrap_or_default();
+		if second != "after_close is_closed=true send=false send_timeout=false try_send=false" {
+			return fail("after a successful unsubscribe the handler tries send, send_timeout and try_send", second, "the sink reports closed and every send started after that fails");
+		}
+		// nothing more is delivered
+		let extra = tokio::time::timeout(std::time::Duration::from_millis(200), sub.next::<String>()).await;
+		if let Ok(Some(Ok((v, _)))) = &extra {
+			return fail("notifications after a successful unsubscribe", format!("delivered {v}"), "nothing delivered after close");
+		}
+		// history 2: the caller goes away between the subscribe call and the handler's accept(): the subscription never
+		// becomes active, so an unsubscribe naming its id answers false
+		{
+			let (tx2, mut rx2) = tokio::sync::mpsc::unbounded_channel::<String>();
+			let gate = std::sync::Arc::new(tokio::sync::Notify::new());
+			let gate2 = gate.clone();
+			let mut module2 = RpcModule::new((tx2, gate2));
+			module2
+				.register_subscription("sub2", "notif2", "unsub2", |_, pending, ctx, _| async move {
+					let sid = serde_json::to_string(&pending.subscription_id()).unwrap();
+					ctx.1.notified().await;
+					let accepted = pending.accept().await.is_ok();
+					let _ = ctx.0.send(format!("{sid}|{accepted}"));
+				})
+				.unwrap();
+			{
+				let fut = module2.subscribe_unbounded("sub2", jsonrpsee_core::EmptyServerParams::new());
+				tokio::select! { _ = fut => {}, _ = tokio::time::sleep(std::time::Duration::from_millis(60)) => {} }
+			}
+			gate.notify_one();
+			let rep = tokio::time::timeout(std::time::Duration::from_secs(2), rx2.recv()).await.ok().flatten().unwrap_or_default();
+			let (sid, accepted) = rep.split_once('|').unwrap_or(("", ""));
+			if accepted == "false" {
+				let sid: SubscriptionId = serde_json::from_str(sid).unwrap();
+				let answer: bool = module2.call("unsub2", [sid.into_owned()]).await.unwrap();
+				if answer {
+					return fail("subscribe call dropped before the handler's accept(); accept() fails; then unsubscribe(that id)", "true".into(), "false (the subscription never became active)");
+				}
+			}
+		}
+		json!({"probe":"subscription_bookkeeping","disagrees":false,"histories_tried":2})
+	})
+}
